@@ -9,8 +9,8 @@ property): `For`, `While`, the `catch` clause and `Lambda` clone the environment
 leak); `If`, `Sequence`, the `try` body and the operands of every other form share it; a declaration
 binds its names BEFORE its right-hand side is frozen (known finding F20/F27); a `for` clause freezes its
 iteratee before binding its names; an assignment / op-assignment to a name that is not bound is an
-error; lambda parameter defaults are frozen with the parameters bound; the text inside `eval "…"` is
-not frozen.
+error; lambda parameter type annotations and defaults are frozen with the parameters bound (per
+parameter: annotation, then default); the text inside `eval "…"` is not frozen.
 -/
 import NoulithModel.Impl.CoreAst
 
@@ -146,8 +146,8 @@ mutual
         | .error e => .error e
         | .ok (rhs', s) => .ok (.opassign x opn rhs', s)
     | s, .lambda params body =>
-      -- parameters are bound in a cloned env; since the `fix:` commit for F28 the parameter defaults
-      -- are frozen too (in that env), then the body
+      -- parameters are bound in a cloned env; since the `fix:` commit for F28 every parameter lvalue is
+      -- re-frozen (in that env): its type annotation and its default; then the body
       let s2 := { s with bound := s.bound ++ params.map Param.name }
       match freezeParams look s2 params with
       | .error e => .error e
@@ -226,15 +226,22 @@ mutual
         | .error e => .error e
         | .ok (rest', s) => .ok (.iter kind p e' :: rest', s)
 
+  /-- `box_freeze_lvalue` over the parameter list.  A parameter is `WithDefault(Annotation(name, ann),
+  dflt)` (the parser's nesting): `freeze_lvalue` first descends into the `Annotation` (the name, already
+  bound, then `opt_rc_freeze` of the annotation expression), then `rc_freeze`s the default.  So per
+  parameter: the type annotation, then the default; parameters left to right. -/
   def freezeParams (look : String → Option V) : FState V → List Param → Except FreezeErr (List Param × FState V)
     | s, [] => .ok ([], s)
-    | s, .mk name dflt splat :: rest =>
-      match freezeOpt look s dflt with
+    | s, .mk name dflt splat ann :: rest =>
+      match freezeOpt look s ann with
       | .error e => .error e
-      | .ok (dflt', s) =>
-        match freezeParams look s rest with
+      | .ok (ann', s) =>
+        match freezeOpt look s dflt with
         | .error e => .error e
-        | .ok (rest', s) => .ok (.mk name dflt' splat :: rest', s)
+        | .ok (dflt', s) =>
+          match freezeParams look s rest with
+          | .error e => .error e
+          | .ok (rest', s) => .ok (.mk name dflt' splat ann' :: rest', s)
 
   /-- switch arms: every arm clones the environment (`let mut env2 = env.clone()` inside the arm loop),
   binds its pattern's names, freezes its body; nothing an arm binds is visible to later arms -/
